@@ -97,4 +97,132 @@ def gen_retry(srcdir, problems):
     return "".join(out), [{"name": "retry", "ok": True}]
 
 
-FACT_GENERATORS = [("Retry.v", gen_retry)]
+
+# ---------------------------------------------------------------------------------------------- C18
+def fstring_parts(node, src):
+    """f-string (or implicit concatenation of f-strings / constants) -> list of ('lit', text) / ('hole', source)"""
+    parts = []
+    if isinstance(node, ast.Constant) and isinstance(node.value, str):
+        return [("lit", node.value)]
+    if isinstance(node, ast.JoinedStr):
+        for v in node.values:
+            if isinstance(v, ast.Constant):
+                parts.append(("lit", v.value))
+            elif isinstance(v, ast.FormattedValue):
+                if v.format_spec is not None or v.conversion != -1:
+                    raise Untranslatable(f"UNTRANSLATABLE f-string format spec at line {node.lineno}")
+                parts.append(("hole", " ".join(ast.get_source_segment(src, v.value).split())))
+        return parts
+    raise Untranslatable(f"UNTRANSLATABLE key expression at line {getattr(node, 'lineno', '?')}: {type(node).__name__}")
+
+
+def enclosing_ifs(fn, target):
+    """list of `if` tests (source order, outermost first) enclosing node `target` inside function fn"""
+    path = []
+
+    def walk(node, stack):
+        if node is target:
+            path.extend(stack)
+            return True
+        for child in ast.iter_child_nodes(node):
+            st = stack
+            if isinstance(node, ast.If) and child in node.body:
+                st = stack + [node.test]
+            elif isinstance(node, ast.If) and child in node.orelse:
+                st = stack + [ast.UnaryOp(op=ast.Not(), operand=node.test)]
+            if walk(child, st):
+                return True
+        return False
+
+    walk(fn, [])
+    return path
+
+
+def key_sites(srcdir):
+    """every `<client>.put(path, ...)` whose first argument is a local name assigned from an f-string in the same function"""
+    sites = []
+    files = ["elexmodel/handlers/data/CombinedData.py", "elexmodel/handlers/data/ModelResults.py", "elexmodel/distributions/GaussianModel.py",
+             "elexmodel/client.py"]
+    for rel in files:
+        f = os.path.join(srcdir, rel)
+        src, tree = parse(f)
+        for fn in [n for n in ast.walk(tree) if isinstance(n, ast.FunctionDef)]:
+            assigns = {}
+            for n in ast.walk(fn):
+                if isinstance(n, ast.Assign) and len(n.targets) == 1 and isinstance(n.targets[0], ast.Name):
+                    assigns.setdefault(n.targets[0].id, []).append(n)
+            for n in ast.walk(fn):
+                if isinstance(n, ast.Call) and isinstance(n.func, ast.Attribute) and n.func.attr == "put" and n.args:
+                    a0 = n.args[0]
+                    if isinstance(a0, ast.Name):
+                        cands = [x for x in assigns.get(a0.id, []) if x.lineno < n.lineno]
+                        if not cands:
+                            raise Untranslatable(f"UNTRANSLATABLE {f}:{n.lineno} put() key {a0.id} has no assignment")
+                        val = max(cands, key=lambda x: x.lineno).value
+                    else:
+                        val = a0
+                    sites.append((f"{rel.split('/')[-1]}:{fn.name}", fstring_parts(val, src), n.lineno))
+    return sites
+
+
+def gen_persist(srcdir, problems):
+    out = [HEADER, STR_HDR, "Inductive part := Lit (s : string) | Hole (s : string).\n"]
+    sites = key_sites(srcdir)
+    items = []
+    for name, parts, _ in sites:
+        ps = clist([("Lit " if k == "lit" else "Hole ") + cstr_raw(v) for k, v in parts])
+        items.append(f"({cstr(name)}, {ps})")
+    out.append(f"Definition key_templates : list (string * list part) := {clist(items)}.\n")
+    # guards of the write calls in the client
+    f = os.path.join(srcdir, "elexmodel/client.py")
+    src, tree = parse(f)
+    guards = []
+    gate_line = None
+    order = []
+    for fname in ("get_estimates", "get_national_summary_votes_estimates"):
+        fn = find_func(tree, "ModelClient", fname)
+        if fn is None:
+            raise Untranslatable(f"UNTRANSLATABLE {f}: {fname} not found")
+        for n in ast.walk(fn):
+            if isinstance(n, ast.Call) and isinstance(n.func, ast.Attribute) and n.func.attr == "write_data":
+                tests = enclosing_ifs(fn, n)
+                gsrc = " && ".join(" ".join(ast.get_source_segment(src, t).split()) if not isinstance(t, ast.UnaryOp) or not hasattr(t, "lineno") or True and hasattr(t, "col_offset") else "not(...)" for t in tests if hasattr(t, "col_offset")) if tests else ""
+                if any(not hasattr(t, "col_offset") for t in tests):
+                    gsrc = "ELSE-BRANCH " + gsrc
+                recv = " ".join(ast.get_source_segment(src, n.func.value).split())
+                guards.append((fname, recv, gsrc, n.lineno))
+            if fname == "get_estimates" and isinstance(n, ast.Raise) and n.exc is not None and "ModelNotEnoughSubunitsException" in ast.get_source_segment(src, n.exc):
+                gate_line = n.lineno
+    if gate_line is None:
+        raise Untranslatable(f"UNTRANSLATABLE {f}: raise ModelNotEnoughSubunitsException not found")
+    out.append(f"Definition client_write_sites : list (string * string * string * bool) := "
+               + clist([f"({cstr(a)}, {cstr(b)}, {cstr(c)}, {'true' if ln < gate_line else 'false'})" for a, b, c, ln in guards]) + ".\n")
+    # save flags
+    fn = find_func(tree, "ModelClient", "get_estimates")
+    flags = []
+    for n in ast.walk(fn):
+        if isinstance(n, ast.Assign) and len(n.targets) == 1:
+            t = " ".join(ast.get_source_segment(src, n.targets[0]).split())
+            if t in ("self.save_results", "save_data", "save_config", "save_conformalization", "save_output"):
+                flags.append((t, " ".join(ast.get_source_segment(src, n.value).split())))
+    out.append(f"Definition save_flags : list (string * string) := {clist([f'({cstr(a)}, {cstr(b)})' for a, b in flags])}.\n")
+    # the guard of the conformalization writes in GaussianModel.fit
+    f2 = os.path.join(srcdir, "elexmodel/distributions/GaussianModel.py")
+    src2, tree2 = parse(f2)
+    fn2 = find_func(tree2, "GaussianModel", "fit")
+    gg = []
+    for n in ast.walk(fn2):
+        if isinstance(n, ast.Call) and isinstance(n.func, ast.Attribute) and n.func.attr in ("_write_conformalization_data", "_write_gaussian_bounds"):
+            tests = enclosing_ifs(fn2, n)
+            gg.append((n.func.attr, " && ".join(" ".join(ast.get_source_segment(src2, t).split()) for t in tests if hasattr(t, "col_offset"))))
+    out.append(f"Definition gaussian_write_guards : list (string * string) := {clist([f'({cstr(a)}, {cstr(b)})' for a, b in gg])}.\n")
+    return "".join(out), [{"name": "persist", "ok": True, "sites": len(sites)}]
+
+
+def cstr_raw(s):
+    """string literal preserving whitespace (for the no-whitespace theorem); newlines / tabs are kept as such"""
+    s = str(s).replace('"', '""')
+    return '"' + s + '"'
+
+
+FACT_GENERATORS = [("Retry.v", gen_retry), ("Persist.v", gen_persist)]
